@@ -59,25 +59,6 @@ Classes == { Flat(ks) : ks \in Layouts } \cup { FlatX(ks) : ks \in { l \in Layou
            \cup { Chain3(Flat(ks)) : ks \in Layouts }                       \* K(M3(G3)): the middle class's declarations are in effect
            \cup UNION { { Split(ks, s) : s \in 1..Len(ks) } : ks \in { l \in Layouts : Len(l) >= 2 } }
            \cup { c \in Overrides : WellFormedCls(c) }
-\* a subclass (adding defaulted fields) of a format-mixin class whose fields refer to typing.Self: the nested documents under
-\* next / kids are documents of the SUBCLASS -- its own fields take the explicit value, or their default iff absent
-RECURSIVE SubT(_, _)
-SubT(fmt, k) ==
-  LET U == IF k = 0 THEN <<"none">> ELSE SubT(fmt, k - 1)
-      pf == << <<"a", <<"int">>, <<"val", I(1)>>, <<>> >>,
-               <<"next", <<"opt", <<"fwd", "#self", U>> >>, <<"val", None>>, <<>> >>,
-               <<"kids", <<"list", <<"fwd", "#self", U>> >>, <<"fac", L(<<>>)>>, <<>> >> >>
-      PU == IF k = 0 THEN <<"none">> ELSE <<"none">>
-      Par == <<"dc", "SP", [i \in DOMAIN pf |-> IF i = 1 THEN pf[i] ELSE <<pf[i][1], IF i = 2 THEN <<"opt", <<"fwd", "#self", <<"none">> >> >> ELSE <<"list", <<"fwd", "#self", <<"none">> >> >>, pf[i][3], pf[i][4]>>],
-               << <<"mixin", fmt>> >> >>
-  IN <<"dc", "K", pf \o << <<"x", <<"int">>, <<"val", I(42)>>, <<>> >>, <<"o", <<"opt", <<"int">> >>, <<"val", I(5)>>, <<>> >> >>,
-       << <<"mixin", fmt>>, <<"bases", <<Par>> >> >> >>
-SelfFams == { SubT(f, 2) : f \in {"dict", "orjson", "msgpack"} }
-SubDoc(x) == Dct(<< <<S("a"), I(3)>> >> \o x)
-SelfInputs == { Dct(<< <<S("next"), SubDoc(<< <<S("x"), I(7)>>, <<S("o"), None>> >>)>> >>),
-                Dct(<< <<S("next"), SubDoc(<<>>)>>, <<S("x"), I(9)>> >>),
-                Dct(<< <<S("kids"), L(<< SubDoc(<< <<S("x"), I(7)>> >>), SubDoc(<< <<S("o"), I(6)>>, <<S("next"), SubDoc(<< <<S("x"), I(8)>> >>)>> >>) >>)>> >>),
-                Dct(<<>>) }
 Good(f) == IF FType(f) = IntL THEN L(<<I(8), I(9)>>) ELSE I(40)
 
 \* ---- aliased layouts: every field carries an alias from one of the three sources, with and without
